@@ -226,6 +226,22 @@ example : Callbacks.deliver false [1, 0] (fun id => if id = 1 then .unregister 1
 
 /-! ## a pilot that ends while tasks bound to it are being submitted -/
 
+/-- **the scan survives a concurrent submission**: `_pilot_state_cb` scans the task registry without the tasks
+    lock, and `submit_tasks` on another thread may enter tasks while it does (`act id`: what happens to the registry
+    while task `id` is being failed - anything).  With the code as it is (`Gen.tmgrScanSnapshot`: the scan walks a
+    copy; repaired by 6c8c628 - the walk over the live registry ended with a RuntimeError at the first task entered
+    meanwhile and the remaining tasks of the dead pilot were never failed) every task registered when the scan began
+    is looked at and no exception escapes -/
+theorem C13_scan_complete (reg : List Nat) (act : Nat → Callbacks.Edit) :
+    (Callbacks.deliver Gen.tmgrScanSnapshot reg act).1 = reg ∧ (Callbacks.deliver Gen.tmgrScanSnapshot reg act).2.2 = false := by
+  have e : Gen.tmgrScanSnapshot = true := by decide
+  rw [e]; exact ⟨rfl, rfl⟩
+
+/-- the defect that was repaired (test): three tasks, a task (9) entered while the first is being failed - the walk
+    over the live registry stops after the first -/
+example : Callbacks.deliver false [0, 1, 2] (fun id => if id = 0 then .register 9 else .nothing) = ([0], [0, 1, 2, 9], true) := by decide
+
+
 /-- **no window between hand-over and registration**: with the code as it is (`Gen.submitRegistersFirst`:
     `submit_tasks` enters a bulk into the registry before it hands it to the scheduler, at every site), wherever
     the delivery of the pilot's final state falls between the steps of the submitting thread, a task of that pilot
